@@ -29,6 +29,10 @@
 #include "cmb_assert.h"
 
 #include "cmi_coroutine.h"
+
+#if defined(CIMBA_VERIF) && defined(__SANITIZE_ADDRESS__)
+#include <sanitizer/asan_interface.h>
+#endif
 #include "cmi_memutils.h"
 
 /* Assembly function, see src/arc/cmi_coroutine_context_*.asm */
@@ -135,6 +139,15 @@ void cmi_coroutine_context_init(struct cmi_coroutine *cp)
     cmb_assert_release(cp != NULL);
     cmb_assert_debug(cp->stack != NULL);
     cmb_assert_debug(cp->stack_base != NULL);
+
+#if defined(CIMBA_VERIF) && defined(__SANITIZE_ADDRESS__)
+    /*
+     * Verification hook: a restarted coroutine reuses a stack whose abandoned
+     * frames still carry AddressSanitizer redzones. Clear them, the stack is
+     * about to be rebuilt from scratch.
+     */
+    __asan_unpoison_memory_region(cp->stack, (size_t)(cp->stack_base - cp->stack));
+#endif
 
     /* Make sure we can recognize if something overwrites the end of stack */
     cp->stack_limit = cp->stack;
